@@ -402,10 +402,19 @@ pub fn world_to_tile(world_x: f32, world_y: f32) -> (u32, u32) {
     const MAP_SIZE: f32 = 533.333_3;
     const MAP_OFFSET: f32 = 32.0 * MAP_SIZE;
 
-    let tile_x = ((MAP_OFFSET - world_y) / MAP_SIZE) as u32;
-    let tile_y = ((MAP_OFFSET - world_x) / MAP_SIZE) as u32;
+    // The f32 division can land just below an integer for coordinates that sit exactly on
+    // a tile corner (which is what `tile_to_world` returns), so let the next tile's own
+    // corner decide which side of the boundary the coordinate is on.
+    let axis_to_tile = |world: f32| -> u32 {
+        let tile = (((MAP_OFFSET - world) / MAP_SIZE) as u32).min(63);
+        if tile < 63 && MAP_OFFSET - ((tile + 1) as f32 * MAP_SIZE) >= world {
+            tile + 1
+        } else {
+            tile
+        }
+    };
 
-    (tile_x.min(63), tile_y.min(63))
+    (axis_to_tile(world_y), axis_to_tile(world_x))
 }
 
 #[cfg(test)]
